@@ -175,8 +175,29 @@ def genSparseTable : Gen TableDump := do
     | _ => return [(c.name, GoVal.str (← genString))])
   return { name := ← genName, columns := [c], rows, rowCount := rows.length }
 
+/-- row counts where an exporter that batches, pages or buffers has its boundaries: powers of two and multiples of 100 / 1000, ± 1 -/
+def rowBoundaries : List Nat := [255, 256, 257, 511, 512, 513, 999, 1000, 1001, 1023, 1024, 1025, 1999, 2000, 2001, 2047, 2048, 2049,
+  2999, 3000, 3001, 99, 100, 101, 199, 200, 201, 499, 500, 501, 1000, 1000, 2000]
+
+/-- a table with MANY cheap rows (one or two int / text columns): the row count is a boundary, or a boundary times 1..3 ± 1 -/
+def genBigTable : Gen TableDump := do
+  let base ← Gen.oneOf rowBoundaries
+  let n ← (do match ← Gen.below 4 with
+              | 0 => return (← Gen.oneOf [100, 1000, 1024]) * (← Gen.range 1 3)
+              | 1 => Gen.range 900 1100
+              | _ => return base)
+  let c1 : ColumnInfo := { name := ← genName, type := typeNameOf 23, typID := 23 }
+  let c2 : ColumnInfo := { name := ← genName, type := typeNameOf 25, typID := 25 }
+  let two ← Gen.bool
+  let cols := if two && c2.name != c1.name then [c1, c2] else [c1]
+  let v ← genString
+  let rows := (List.range n).map fun i =>
+    ((cols.map fun c => (c.name, if c.typID == 23 then GoVal.int (i : Nat) else (if i % 50 == 0 then GoVal.str v else GoVal.str (s s!"r{i}")))).mergeSort fun a b => bytesLe a.1 b.1 : Row)
+  return { name := ← genName, columns := cols, rows, rowCount := n }
+
 def genTable (size : Nat) : Gen TableDump := do
-  if ← Gen.prob 1 6 then genSparseTable
+  if size ≥ 3 && (← Gen.prob 1 80) then genBigTable
+  else if ← Gen.prob 1 6 then genSparseTable
   else
     let nc ← Gen.edgy 0 (2 + size)
     let cols := dedupNames (← Gen.listOf nc genColumn)
